@@ -52,7 +52,8 @@ def build(rng, labels=None, k=None):
         mi, ci, lo, hi, name = pool[i]
         mm.mappings.values[i] = mm.Mapping((mi, ci))
         mm.user_defined[i].label = labels[i] if labels[i] is not None else quiet[i]
-        slots.append({"label": labels[i], "alias": None if labels[i] is None else "u_" + labels[i].lower(), "lo": lo, "hi": hi, "target": name})
+        slots.append({"label": labels[i], "alias": None if labels[i] is None else "u_" + labels[i].lower(), "lo": lo, "hi": hi, "target": name,
+                      "text": labels[i] if labels[i] is not None else quiet[i]})
     mm.update_user_defined_controllers()
     return mm, slots
 
@@ -168,7 +169,7 @@ def run(res, prop, rng, n, domain=False, pairs=False):
             except Exception:
                 res.count("alias_reload_failed")
                 continue
-            if [c.label for c in mm_l.user_defined[:len(slots)]] == [t["label"] for t in slots]:
+            if [c.label for c in mm_l.user_defined[:len(slots)]] == [t.get("text", t["label"]) for t in slots]:
                 probe(res, prop, mm_l, slots, rng, desc, others=others, domain=domain, where="loaded")
             else:
                 res.count("alias_labels_not_restored")
